@@ -232,6 +232,25 @@ func genC03(r *gen.Rand) *C03Case {
 			top = link
 			c.Linear = false
 			c.Shape = append(c.Shape, "symlink")
+			if strings.Contains(tgt, "..") && !strings.HasPrefix(tgt, "@ABS@") && r.Chance(0.4) {
+				// the link is reached through a directory link whose own
+				// parent is elsewhere: the ".." in the file link's target is
+				// relative to the directory the link really lives in, not to
+				// the spelling it was reached by
+				fdir := c03Dir + "/far/away"
+				w.Dirs = append(w.Dirs, fdir)
+				rp, _ := filepath.Rel(fdir, filepath.Dir(link))
+				w.Links = append(w.Links, procsim.Link{Path: fdir + "/lk", Target: rp})
+				top = filepath.Join(fdir, "lk", filepath.Base(link))
+				if lex := filepath.Dir(filepath.Join(fdir, "lk", tgt)); r.Chance(0.5) {
+					// same-named files at the lexically computed neighbour must not be picked up
+					w.Dirs = append(w.Dirs, lex)
+					for _, p := range chain {
+						put(filepath.Join(lex, filepath.Base(p)), map[string]any{"decoy_lexical_neighbour": true})
+					}
+				}
+				c.Shape = append(c.Shape, "symlink-through-dir-link")
+			}
 		}
 	case 5: // directory symlink
 		w.Links = append(w.Links, procsim.Link{Path: c03Dir + "/dl", Target: strings.TrimPrefix(dir, c03Dir+"/")})
